@@ -163,6 +163,26 @@ class PathCtx:
                                "hypotheses": len(hyps), "witness": self.witness()})
         return r.status == "proved"
 
+    def prove_no_div0(self, clause, thunk, replay=None):
+        """`finite`: no divisor created while evaluating thunk() can vanish under the hypotheses"""
+        import z3
+        from .oblig import discharge
+        before = len(self.dom.divisors)
+        val = thunk()
+        new = list(self.dom.divisors[before:])
+        tc = self.tc
+        ok = True
+        if not new:
+            self.ok(clause, "no symbolic divisor")
+            return val, True
+        name = "%s/%s/%s#%s" % (tc.prop, tc.task.name, clause, self.label)
+        r = discharge(self.dom, name, self.hyps + list(self.dom.facts), z3.And([d != 0 for d in new]),
+                      timeout_ms=10000, kind=tc.task.kind, light_hyps=list(self.hyps))
+        r.clause = clause
+        r.replay = replay
+        tc.results.append(r)
+        return val, r.status == "proved"
+
     def canary(self, clause, goal):
         """a deliberately wrong variant of a specification: it must NOT be provable.  A canary that
         is proved means the engine or the encoding is broken (exit 3), not that the code is fine."""
